@@ -64,9 +64,15 @@ def rows_for(which):
     return out
 
 
-def order_options():
+TRIPLE_NAMES = ["seqid", "featuretype", "start", "end", "strand", "length"]
+
+
+def order_options(tier="quick"):
     opts = [None] + [n for n in NAMES] + [(n,) for n in NAMES]
     opts += [(a, b) for a in NAMES for b in NAMES if a != b]
+    if tier != "quick":
+        opts += [(a, b, c) for a in TRIPLE_NAMES for b in TRIPLE_NAMES for c in TRIPLE_NAMES if len({a, b, c}) == 3]
+        opts += [[a, b] for a in TRIPLE_NAMES for b in TRIPLE_NAMES if a != b]          # given as a list
     return opts
 
 
@@ -78,7 +84,7 @@ STRANDS = [None, "+", "-", "."]
 
 def bounds(tier):
     return dict(databases=["small"] if tier == "quick" else ["small", "large"], features=[len(ROWS)] + ([30] if tier != "quick" else []),
-                order_by_options=len(order_options()), featuretypes=[repr(f)[:60] for f in FTS], strands=STRANDS)
+                order_by_options=len(order_options(tier)), featuretypes=[repr(f)[:60] for f in FTS], strands=STRANDS)
 
 
 def shards(tier):
@@ -157,7 +163,7 @@ def body(ch, ctx):
             ctx.check(got == [m["id"] for m in model], "full-iteration-not-in-input-order", None, got=got)
         return
     ft, strand = FTS[fi], STRANDS[si]
-    ob = ch.choose("order_by", order_options())
+    ob = ch.choose("order_by", order_options(ctx.tier))
     single = ob is not None and (isinstance(ob, str) or len(ob) == 1)
     reverse = ch.flag("reverse") if single else False
     exp = [m for m in model
@@ -168,7 +174,7 @@ def body(ch, ctx):
     ctx.outcome((which, method, fi, si, repr(ob), reverse))
     kw = dict(strand=strand, order_by=ob, reverse=reverse)
     sig = dict(method=method, order_by_form="none" if ob is None else ("string" if isinstance(ob, str) else "tuple%d" % len(ob)),
-               reverse=reverse, length="length" in (ob if isinstance(ob, tuple) else (ob,)))
+               reverse=reverse, length="length" in (ob if isinstance(ob, (tuple, list)) else (ob,)))
     try:
         if method == "all_features":
             got = list(db.all_features(featuretype=ft, **kw))
